@@ -145,7 +145,23 @@ class Runner:
         # one engine object per symbol type serves every step and compilation of this runner: what it
         # compiled before (other options, other levels) must not show in what it compiles now
         eng = self._eng.setdefault(sym, impl.CsEngine(sym))
-        R.net.step(engine=eng, **nets.opts_kwargs(opts or {}), **R.step_kwargs())
+        if self.reads_seed is not None:
+            # history: the network is first stepped with OTHER model parameters (numbers), then - without
+            # re-initialising - every element is stepped again through the element-level API with the actual
+            # ones: what is compiled afterwards must be the latest step of every element
+            kw0 = dict(R.step_kwargs())
+            kw0.update(T=self.pv["g.T"] * 1.7, tau=self.pv["g.tau"] * 0.6, eta=self.pv["g.eta"] * 1.3)
+            R.net.step(engine=eng, **nets.opts_kwargs(opts or {}), **kw0)
+            # (element-level defaults differ from Network.step's - Link.step_dynamics clamps speeds by default -
+            # so the three next-options are always passed explicitly here)
+            o_ = opts or {}
+            for el in R.net.origins:
+                el.step(net=R.net, engine=eng, positive_next_queue=bool(o_.get("pn_w")), **R.step_kwargs())
+            for (_, _, el) in R.net.links:
+                el.step(net=R.net, engine=eng, positive_next_speed=bool(o_.get("pn_v")),
+                        positive_next_density=bool(o_.get("pn_rho")), **R.step_kwargs())
+        else:
+            R.net.step(engine=eng, **nets.opts_kwargs(opts or {}), **R.step_kwargs())
         params = {pname(t): sp[t] for t in (ptoks or [])} or None
         # the documented idiom: the keyword parameters of the step are passed again
         # (with extra outputs a declared model parameter must not be repeated as keyword: the flow
@@ -235,6 +251,14 @@ def points_for(net, pv, rng, k):
     return pts
 
 
+def integer_state(sv):
+    """the state rounded to integers (densities, speeds; infinite limits kept): to be supplied as integer arrays"""
+    out = {}
+    for k, x in sv.items():
+        out[k] = float(round(x)) if math.isfinite(x) and (k.startswith("rho.") or k.startswith("v.")) else x
+    return out
+
+
 def state_keys(net):
     ks = []
     for l, v in net.links.items():
@@ -277,14 +301,19 @@ def correspondence(out, ctx, cases, opts=None, engines=("np",), per_case_points=
     mt = {e: None for e in engines}
     st = None
     if ctx["model_ok"]:
+        # (separately: the specification trees do not depend on the regenerated engines and are still available
+        # when a translator failed closed or the generated model does not compile)
+        try:
+            st = dyn.spec_trees(cases)
+        except Exception as ex:
+            out["disagreements"].append({"what": "Coq specification could not be evaluated", "error": str(ex)[-500:]})
+            st = None
         try:
             for e in engines:
                 mt[e] = dyn.model_trees(cases, e, opts)
-            st = dyn.spec_trees(cases)
         except Exception as ex:
             out["disagreements"].append({"what": "Coq model could not be evaluated", "error": str(ex)[-500:]})
             mt = {e: None for e in engines}
-            st = None
     # every third case reaches its final graph through replaced links / origins / destinations
     cases = [nets.with_replacements(n, random.Random(1000 + i)) if i % 3 == 1 else
              (nets.with_late_replacements(n, random.Random(2000 + i)) if i % 3 == 2 else n)
@@ -442,8 +471,9 @@ def run_C01(ctx):
                 fail(out, f"C01:{topo_key(net)}:raise", net, pv, sv, f"NumPy step raised {ex!r:.300}")
                 continue
             try:
-                F, _ = run.function("SX", 0, False)
-                cvals, probs = run.call(F, 0, False, sv)
+                lvl = 0 if mode != "boundary" else 2          # (the one-step map is also read off the single-vector form)
+                F, _ = run.function("SX", lvl, False)
+                cvals, probs = run.call(F, lvl, False, sv)
             except Exception as ex:
                 cvals = None
             for k in state_keys(net):
@@ -605,6 +635,20 @@ def run_C02(ctx):
                     sv_[k_] = -abs(sv_[k_]) * rng.choice([0.05, 0.5, 1.0])
             if not dyn.near_excluded(net, pv, sv_):
                 pts.append(("signed", sv_))
+        # integer-valued states supplied as integer arrays; and the speed clamp alone (it clamps no density and no
+        # queue, so the balance is untouched by it)
+        svi = integer_state(pts[0][1])
+        if not dyn.near_excluded(net, pv, svi):
+            for shape_, o_ in (("int", None), ("vec1", {"pn_v": True})):
+                try:
+                    got = run.numpy_step(svi if shape_ == "int" else pts[-1][1], o_, shape_)
+                    out["coverage"]["evaluations"] += 1
+                    for msg in balance_failures(net, pv, svi if shape_ == "int" else pts[-1][1], got):
+                        fail(out, f"C02:{topo_key(net)}:np-{shape_}", net, pv, svi if shape_ == "int" else pts[-1][1],
+                             f"NumPy step ({'integer arrays' if shape_ == 'int' else 'positive_next_speed only'}): " + msg,
+                             scalar_shape=shape_, opts=o_)
+                except Exception as ex:
+                    disagree(out, net, pv, svi, f"NumPy step ({shape_}, {o_}) raised {ex!r:.200}")
         for mode, sv in pts:
             try:
                 got = run.numpy_step(sv)
@@ -668,6 +712,26 @@ def run_C03(ctx):
                         fail(out, f"C03:{topo_key(net)}:{sym}{compact}", net, pv, sv,
                              f"CasADi {sym} compact={compact}: {k} = {x!r}, NumPy step gives {y!r}",
                              reads_seed=run.reads_seed, sym=sym, compact=compact, more_out=more)
+        # integer-valued states given to the NumPy engine as integer arrays; a state with negative entries
+        # (entries where the plain law is not a number are skipped)
+        for label, svx, shape_ in (("integer arrays", integer_state(pts[0][1]), "int"),
+                                   ("negative entries", nets.random_state(net, pv, rng, "negative"), "vec1")):
+            if dyn.near_excluded(net, pv, svx):
+                continue
+            try:
+                refx = run.numpy_step(svx, None, shape_)
+                F, _ = run.function("SX", 0, False)
+                valsx, _p = run.call(F, 0, False, svx)
+            except Exception as ex:
+                fail(out, f"C03:{topo_key(net)}:{shape_}-raise", net, pv, svx, f"{label}: raised {ex!r:.300}", scalar_shape=shape_)
+                continue
+            out["coverage"]["evaluations"] += 1
+            if valsx is not None:
+                bad = states_close(valsx, refx, [k for k in keys if not (math.isnan(refx[k]) or math.isnan(valsx[k]))])
+                if bad:
+                    k, x, y = bad[0]
+                    fail(out, f"C03:{topo_key(net)}:{shape_}", net, pv, svx,
+                         f"{label}: CasADi SX compact=0 {k} = {x!r}, NumPy step gives {y!r}", scalar_shape=shape_, sym="SX", compact=0)
         # the same engine and the same network, stepped again with other options and compiled again with
         # the very same to_function arguments: the function must be the one of the latest step
         sv = pts[0][1]
@@ -872,7 +936,36 @@ def run_C05(ctx):
     tf_correspondence(out, ctx, [(run0, ("SX", "MX")[ci % 2], ci % 3, True,
                                   {"pi_v": True, "pi_w": True} if ci % 3 == 0 else None, None, pts[0][1])
                                  for ci, (net, pv, pts, mtree, stree, run0) in enumerate(data)])
+    import casadi as cs_
     for ci, (net, pv, pts, mtree, stree, run0) in enumerate(data):
+        # a control input fixed to a NUMBER by the caller (so the flow of an unlimited simplified ramp, or a rate,
+        # is a constant, not a symbol): every link and every origin still has its flow among the extra outputs
+        if net.origins and any(k_ != "ideal" for k_ in net.origins.values()):
+            for sym in ("SX", "MX"):
+                try:
+                    Rn = impl.Real(net, pv)
+                    eng = impl.CsEngine(sym)
+                    ic = {}
+                    for o, k_ in net.origins.items():
+                        if k_ != "ideal":
+                            act = {"main": "v_ctrl", "ramp_in": "r", "ramp_out": "r"}.get(k_, "q")
+                            ic[Rn.origins[o]] = {act: {"main": 80.0, "ramp_in": 0.6, "ramp_out": 0.6}.get(k_, 400.0)}
+                    Rn.net.step(init_conditions=ic, engine=eng, **Rn.step_kwargs())
+                    for compact in (0, 1):
+                        F = eng.to_function(Rn.net, compact=compact, more_out=True, **Rn.step_kwargs())
+                        out["coverage"]["evaluations"] += 1
+                        no = [(F.name_out(i), F.size1_out(i)) for i in range(F.n_out())]
+                        n_qo = sum(1 for n, _ in no if n.startswith("q_o_")) if compact == 0 else sum(k for n, k in no if n == "q_o")
+                        n_ql = sum(1 for n, _ in no if n.startswith("q_") and not n.startswith("q_o_")) if compact == 0 else \
+                            sum(k for n, k in no if n == "q")
+                        want_l = len(net.links) if compact == 0 else sum(v["N"] for v in net.links.values())
+                        if n_qo != len(net.origins) or n_ql != want_l:
+                            fail(out, f"C05:{topo_key(net)}:numeric-control", net, pv, None,
+                                 f"{sym} compact={compact}, control inputs of the origins fixed to numbers: the extra outputs {no} "
+                                 f"hold {n_qo} origin flows for {len(net.origins)} origins and {n_ql} link-flow entries (expected {want_l})",
+                                 sym=sym, compact=compact)
+                except Exception as ex:
+                    fail(out, f"C05:{topo_key(net)}:numeric-control-raise", net, pv, None, f"{sym}: numeric control inputs: raised {ex!r:.300}")
         names = default_names(net) if ci % 2 == 0 else colliding_names(net, rng)
         run = Runner(net, pv, names=names, reads_seed=run0.reads_seed)
         T = pv["g.T"]
@@ -1268,6 +1361,7 @@ def run_C16(ctx):
                 cand.append(f"lp.{l}.alpha")
         cand += [f"C.{o}" for o, k in net.origins.items() if k in nets.RAMPS]
         cand += ["g.T", "g.tau", "g.eta", "g.kappa"] + (["g.delta"] if net.has_delta else []) + (["g.phi"] if net.has_phi else [])
+        plain = Runner(net, pv)
         for rep in range(2 if quick else 5):
             ptoks = rng.sample(cand, rng.randint(1, min(6, len(cand))))
             if rep == 0:
@@ -1280,8 +1374,10 @@ def run_C16(ctx):
                     more = bool((ci + rep) % 2)
                     tag = f"{sym} compact={compact} more_out={more} parameters={ptoks}"
                     try:
-                        Fn, _ = run.function(sym, compact, more)
-                        ref, probs = run.call(Fn, compact, more, sv)
+                        # (the numeric compilation is that of fresh objects stepped once; the symbolic one may
+                        # come with a history - see Runner.function)
+                        Fn, _ = plain.function(sym, compact, more)
+                        ref, probs = plain.call(Fn, compact, more, sv)
                         if ref is None:
                             continue
                     except Exception:
@@ -1540,8 +1636,9 @@ def run_C18(ctx):
         for l in link_ids:
             v = net.links[l]
             plain = variant_net(net, lambda n: n.links[l].update(vsl=None))
-            for vi, vslset in enumerate(([], list(range(v["N"])), [v["N"] - 1])):
-                if quick and vi != (ci + l) % 3:
+            own = [list(v["vsl"])] if v["vsl"] is not None and len(v["vsl"]) >= 2 else []
+            for vi, vslset in enumerate([[], list(range(v["N"])), [v["N"] - 1]] + own):
+                if quick and vi != (ci + l) % 3 and vi < 3:
                     continue
                 ctl = variant_net(net, lambda n: n.links[l].update(vsl=list(vslset)))
                 sv = dict(sv0)
@@ -1577,11 +1674,12 @@ def run_C18(ctx):
                             fail(out, f"C18:vsl-neutral:{len(vslset)}", net, pv, sv, f"{b_}: link {l} with limited segments {vslset} and infinite limits gives {k} = {x!r}; plain link gives {y!r}", link=l, vsl=vslset)
                     elif isinstance(rc.get(b_), Exception) and not isinstance(rp.get(b_), Exception):
                         fail(out, f"C18:vsl-raise:{len(vslset)}", net, pv, sv, f"{b_}: link {l} with limited segments {vslset}: {rc[b_]!r:.300}", link=l, vsl=vslset)
-                # finite limits
+                # finite limits (with several signs: the first one infinite, so that segment must evolve like a plain
+                # one - the k-th limit belongs to the k-th sign in increasing segment order)
                 if vslset:
                     svf = dict(sv)
                     for k in range(len(vslset)):
-                        svf[f"vc.{l}.{k}"] = rng.choice([0.0, 10.0, 40.0, 90.0])
+                        svf[f"vc.{l}.{k}"] = rng.choice([0.0, 10.0, 40.0, 90.0]) if (k > 0 or len(vslset) == 1 or vi < 3) else math.inf
                     rf = steps(Runner(ctl, pvc), svf, backends)
                     for b_ in backends:
                         if isinstance(rp.get(b_), dict) and isinstance(rf.get(b_), dict):
@@ -1591,7 +1689,8 @@ def run_C18(ctx):
                                     seg = int(k.split()[2])
                                     if x > y + 1e-9 * max(1.0, abs(y)):
                                         fail(out, "C18:vsl-raises-speed", net, pv, svf, f"{b_}: finite limit raises {k}: {x!r} > plain {y!r}", link=l, vsl=vslset)
-                                    if seg not in vslset and not tree.close(x, y, max(abs(y), 1.0)):
+                                    unlimited = seg not in vslset or (vi >= 3 and seg == sorted(vslset)[0])
+                                    if unlimited and not tree.close(x, y, max(abs(y), 1.0)):
                                         fail(out, "C18:vsl-unlisted", net, pv, svf, f"{b_}: unlimited segment {seg} of link {l} changed: {x!r} vs {y!r}", link=l, vsl=vslset)
                                 elif not tree.close(x, y, max(abs(y), 1.0)):
                                     fail(out, "C18:vsl-other", net, pv, svf, f"{b_}: a speed limit on link {l} changed {k}: {x!r} vs {y!r}", link=l, vsl=vslset)
@@ -1632,8 +1731,27 @@ def run_C18(ctx):
                 s_inf, s_first = dict(sv), dict(sv)
                 s_inf[f"u.{o}"] = rng.choice(INF)
                 s_first[f"u.{o}"] = sv[f"v.{l1}.0"]
+                # also for a crawling first segment (below 5 % of v_free, where the log-ratio guard is active)
+                if rng.random() < 0.5:
+                    crawl = rng.choice([0.0, 0.01, 0.03]) * pv[f"lp.{l1}.v_free"]
+                    for s_ in (s_inf, s_first):
+                        s_[f"v.{l1}.0"] = crawl
+                    s_first[f"u.{o}"] = crawl
+                    s_inf[f"d.{o}"] = s_first[f"d.{o}"] = 8000.0
                 ra, rb = steps(run, s_inf, backends), steps(run, s_first, backends)
                 out["coverage"]["evaluations"] += 1
+                # "limited only by its link's first-segment speed": the value is the METANET one with v_lim = v_first
+                if stree is not None and not dyn.near_excluded(net, pv, s_inf):
+                    spec_inf = dyn.eval_all(stree, dyn.env_of(pv, s_inf))
+                    for b_ in backends:
+                        if isinstance(ra.get(b_), dict):
+                            for kk in (f"w+ {o} 0", f"rho+ {l1} 0"):
+                                v_, mag_, _b = spec_inf[kk]
+                                if math.isfinite(v_) and not tree.close(v_, ra[b_][kk], mag_):
+                                    fail(out, "C18:main-neutral-spec", net, pv, s_inf,
+                                         f"{b_}: mainstream origin {o} with infinite speed limit gives {kk} = {ra[b_][kk]!r}; the law with the "
+                                         f"first-segment speed {s_inf[f'v.{l1}.0']!r} as the only limit gives {v_!r}", origin=o, observable=kk)
+                                    break
                 for b_ in backends:
                     if isinstance(ra.get(b_), dict) and isinstance(rb.get(b_), dict):
                         bad = states_close(ra[b_], rb[b_], keys)
@@ -2038,6 +2156,30 @@ def run_C12(ctx):
                     break
         except Exception as ex:
             fail(out, f"C12:{tk}:params-array-raise", net, pv, sv, f"stepping with turn rates given as 0-d arrays raised {ex!r:.300}")
+        # all turn rates of a bifurcation exactly zero (the split is then 0/0 - not a number - but that is no licence
+        # to rewrite the links' parameters)
+        try:
+            nodes_z, edges_z = net.graph()
+            for (n_z, _o, _d) in nodes_z:
+                outs_z = [l for (u, d, l) in edges_z if u == n_z]
+                if len(outs_z) >= 2:
+                    pvz = dict(pv)
+                    for l in outs_z:
+                        pvz[f"lp.{l}.turnrate"] = 0.0
+                    Rz = impl.Real(net, pvz)
+                    pz = elem_params(Rz)
+                    try:
+                        Rz.numpy_step(sv)
+                    except Exception:
+                        pass
+                    out["coverage"]["evaluations"] += 1
+                    if elem_params(Rz) != pz:
+                        fail(out, f"C12:{tk}:params-zero-turnrates", net, pvz, sv,
+                             f"all turn rates of the links leaving node {n_z} zero: the step changed element parameters "
+                             f"{[(k, a) for k, d_ in pz.items() for a, v in d_.items() if elem_params(Rz)[k][a] != v][:4]}")
+                    break
+        except Exception as ex:
+            fail(out, f"C12:{tk}:params-zero-raise", net, pv, sv, f"zero turn rates: raised {ex!r:.300}")
         # declared symbolic parameters: the supplied dictionary is left alone, a second compilation with it works
         try:
             cand = [f"lp.{l}.{p_}" for l in net.links for p_ in ("rho_crit", "a", "v_free")][:3]
